@@ -111,7 +111,7 @@ class Machine(object):
     m = int(spec.get("m", 5))
     kind = spec.get("kind", "mixed")
     t = spec.get("t", 2)
-    idx = rs.randint(0, D.N, size=(m, t))
+    idx = rs.randint(0, min(D.N, int(spec["cap"])) if spec.get("cap") else D.N, size=(m, t))
     if spec.get("neg"):
       # X[indices] semantics: a negative indicator counts from the end
       idx = np.where(rs.rand(m, t) < 0.4, idx - D.N, idx)
